@@ -77,6 +77,13 @@ func vMergeCfg(prefix, idBase string, nDocs int, second bool, focus string) gCfg
 }
 
 func vMergeTwo(focus string) {
+	if vParam("dvChunk", 0) > 0 {
+		// small doc-value chunks (the legacy chunk mode, 1024 by default): chunks without data for a field arise
+		// with two or three documents
+		saved := LegacyChunkMode
+		defer func() { LegacyChunkMode = saved }()
+		LegacyChunkMode = uint32(1 + vChoice("dvChunk", vParam("dvChunk", 0)))
+	}
 	maxDocs := vParam("maxDocs", 1)
 	nIn := vParam("nInputs", 2)
 	prefixes := []string{"a", "b", "c"}
@@ -87,7 +94,11 @@ func vMergeTwo(focus string) {
 	r0 := vBool("reopen0")
 	opened := 0
 	for i := 0; i < nIn; i++ {
-		n := vChoice(fmt.Sprint("n", i), maxDocs+1)
+		md := maxDocs
+		if i > 0 {
+			md = vParam("maxDocs1", maxDocs) // (later inputs may be kept smaller than the first)
+		}
+		n := vChoice(fmt.Sprint("n", i), md+1)
 		// the second input may carry an extra field, so that field lists differ
 		docs, sp := vGenBatch(vMergeCfg(prefixes[i], prefixes[i], n, i == 1, focus))
 		ri := r0
